@@ -600,6 +600,50 @@ pub fn run(p: &[String]) -> Vec<String> {
                 hex(&format!("{} -> {} {}", own.join(","), shown.join(","), if &shown == own { "ok" } else { "MISMATCH" }))
             }).collect()
         }
+        "saver_race" => {
+            // "a,b;c,d" rounds : clones of a lazily read workbook (one sheet still unloaded, so the clones share the shared-string table)
+            // saved concurrently on real threads; every saver writes 1500 text cells derived from its texts; every file is read back
+            let texts: Vec<Vec<String>> = unhex(&p[1]).split(';').map(|s| s.split(',').map(|t| t.to_string()).collect()).collect();
+            let rounds = u(&p[2]);
+            let mut base = umya_spreadsheet::new_file_empty_worksheet();
+            base.new_sheet("S").unwrap().get_cell_mut((1, 1)).set_value_string("seed");
+            base.new_sheet("RAW").unwrap().get_cell_mut((1, 1)).set_value_string("raw sheet");
+            let mut buf: Vec<u8> = Vec::new();
+            umya_spreadsheet::writer::xlsx::write_writer(&base, &mut buf).unwrap();
+            let mut problems: Vec<String> = vec![];
+            for round in 0..rounds {
+                let mut lazy = umya_spreadsheet::reader::xlsx::read_reader(std::io::Cursor::new(buf.clone()), false).unwrap();
+                lazy.read_sheet(0);
+                let want = |s: usize, j: u32| -> String { let ts = &texts[s]; format!("{}{}", ts[(j as usize) % ts.len()], (j as usize) / ts.len() + round as usize * 7) };
+                let clones: Vec<umya_spreadsheet::Spreadsheet> = (0..texts.len()).map(|s| {
+                    let mut c = lazy.clone();
+                    { let ws = c.get_sheet_mut(&0).unwrap(); for j in 0..1500u32 { ws.get_cell_mut((1, j + 1)).set_value_string(want(s, j)); } }
+                    c
+                }).collect();
+                let barrier = std::sync::Arc::new(std::sync::Barrier::new(clones.len()));
+                let handles: Vec<_> = clones.into_iter().map(|c| { let b = barrier.clone(); std::thread::spawn(move || { b.wait(); let mut out: Vec<u8> = Vec::new(); let r = umya_spreadsheet::writer::xlsx::write_writer(&c, &mut out); (r.is_ok(), out) }) }).collect();
+                for (s, h) in handles.into_iter().enumerate() {
+                    match h.join() {
+                        Err(_) => problems.push(format!("round {} saver {}: the save panicked", round, s)),
+                        Ok((false, _)) => problems.push(format!("round {} saver {}: the save returned an error", round, s)),
+                        Ok((true, out)) => {
+                            let back = std::panic::catch_unwind(|| umya_spreadsheet::reader::xlsx::read_reader(std::io::Cursor::new(out), true));
+                            match back {
+                                Ok(Ok(book)) => {
+                                    let ws = book.get_sheet(&0).unwrap();
+                                    let mut bad = 0; let mut first = String::new();
+                                    for j in 0..1500u32 { let got = ws.get_value((1, j + 1)); if got != want(s, j) { bad += 1; if first.is_empty() { first = format!("A{} shows {:?} instead of {:?}", j + 1, got, want(s, j)); } } }
+                                    if bad > 0 { problems.push(format!("round {} saver {}: {} cells show a foreign string, e.g. {}", round, s, bad, first)); }
+                                }
+                                _ => problems.push(format!("round {} saver {}: the saved file cannot be read back", round, s)),
+                            }
+                        }
+                    }
+                }
+                if !problems.is_empty() { break; }
+            }
+            if problems.is_empty() { vec![hex("all cells show their own strings")] } else { problems.iter().take(4).map(|s| hex(s)).collect() }
+        }
         // ---- C04
         "attr_generations" => {
             // text : attribute channels (internal hyperlink location, sheet name, table column name) through three save/load generations
